@@ -32,7 +32,7 @@ def exhaustive(tier):
 def required(tier):
     return {"pairs_convertible": 1000, "pairs_refused": 10000, "predicate_evals": 5000,
             "derived_dimension_specs": 1000, "derived_specs_matching_the_unit": 100,
-            "listing_checked": 300, "cache_entries_audited": 300, "gen_registries": 10,
+            "listing_checked": 300, "listing_checked_dimensionless": 10, "cache_entries_audited": 300, "gen_registries": 10,
             "adjacent_exponent_twins": 1000}
 
 
@@ -228,6 +228,17 @@ def run_shard(spec, rec):
             # listing: complete class via the all-units group, as a set
             oc, got = outcome(lambda: ureg.get_compatible_units(a, "root"), pint)
             want = set(classes[dim[a]])
+            if not dim[a]:
+                # dimensionless class (radian, percent, bit ...): the listing must at least be complete;
+                # extras (pint lists angstrom_star there) are observed, not judged
+                rec.count("listing_checked_dimensionless")
+                gotn = {str(u) for u in got} if oc == "ok" else set()
+                if oc != "ok" or not want <= gotn:
+                    rec.violation("listing-differs", {"unit": a, "missing": sorted(want - gotn)[:8] if oc == "ok" else oc,
+                                                      "extra": "(not judged for the dimensionless class)"},
+                                  workload="pairs", dimensionless=True)
+                for x in sorted(gotn - want - {c for c in m.units if not m.is_multiplicative(c)})[:3]:
+                    rec.observe("dimensionless_listing_extras", x)
             if dim[a]:
                 rec.count("listing_checked")
                 gotn = {str(u) for u in got} if oc == "ok" else oc
